@@ -202,8 +202,9 @@ class SignInterp:
         res = []
         for a, s1 in self.ev(e.left, st):
             for b, s2 in self.ev(e.comparators[0], s1):
-                ln = e.left.id if isinstance(e.left, ast.Name) else None
-                rn = e.comparators[0].id if isinstance(e.comparators[0], ast.Name) else None
+                _nm = lambda x: x.id if isinstance(x, ast.Name) else (x.target.id if isinstance(x, ast.NamedExpr) and isinstance(x.target, ast.Name) else None)  # noqa: E731
+                ln = _nm(e.left)
+                rn = _nm(e.comparators[0])
                 outs = self._cmp(op, a, b)
                 for tv in outs:
                     s = s2.copy()
